@@ -30,7 +30,7 @@ inductive Err where
   | badBackupPath | badBackupFormat | badDictPath | badRootPath     -- HedFileError codes of the scan
   | isADirectory | jsonDecode                                       -- `open` / `json.load` failures
   | missingBackupFile | extraFiles                                  -- HedFileError codes of the scan
-  | noBackup | backupDoesNotExist | badDataFile                     -- HedFileError codes of restore/remodel
+  | noBackup | backupDoesNotExist | backupExists | badDataFile                     -- HedFileError codes of restore/remodel
   | fileNotFound                                                    -- `shutil.copy2` of a missing file
 deriving DecidableEq, Repr, Inhabited
 
@@ -383,5 +383,40 @@ def Op.safe (c : Cfg) : Op → Prop
   | .delete p => ¬ c.bdir <+: p ∧ ¬ p <+: c.bdir
   | .remodelCrash _ order _ => ∀ f ∈ order, ¬ c.bdir <+: c.dpath f
   | _ => True
+
+/-! ### Histories on the level of whole backups: one manager object, re-opened managers, several names -/
+
+/-- `backups_dict.get(name)`; NB the record may be `[]` (a backup made from an empty file selection):
+the name still EXISTS - `create`'s guard is `name in backups_dict`, not truthiness of the record. -/
+def lookup (m : Listing) (n : Name) : Option (List Key) := (m.find? (fun e => e.1 == n)).map (·.2)
+
+/-- `run_remodel_restore.main` / `handle_backup`: the CLI tests `if not get_backup(name)` first, so an
+empty record is reported as `BackupDoesNotExist` (the API call reports `NoBackup`). -/
+def restoreCli (c : Cfg) (fs : List Path) (tasks : List Name) (s : St) : Except Err St :=
+  if fs.isEmpty then .error .backupDoesNotExist else restore c fs tasks s
+
+/-- `run_remodel_backup.main`: a fresh manager; `if backup_man.get_backup(name)` (truthiness of the RECORD)
+raises `BackupExists`; otherwise `create_backup` is called, whose own guard (`name in backups_dict`)
+still refuses an existing name with an empty record - silently, returning `False`. -/
+def createCli (c : Cfg) (m : Listing) (s : St) (files : List Path) : Except Err (Bool × List (Step Sym)) :=
+  match lookup m c.name with
+  | some (_ :: _) => .error .backupExists
+  | _ => .ok (create c m s files)
+
+inductive BOp where
+  | create (name : Name) (files : List Path)   -- `manager.create_backup(files, name)`, any selection incl. `[]`
+  | reopen                                     -- a fresh `BackupManager(data_root)` replaces the manager
+deriving Repr
+
+/-- state of a session: the manager's dictionary and the file system -/
+def bstep (c : Cfg) (ms : Listing × St) : BOp → Listing × St
+  | .create n files =>
+    let r := create { c with name := n } ms.1 ms.2 files
+    if r.1 then (ms.1 ++ [(n, (files.map joinKey).eraseDups)], exec r.2 ms.2) else ms
+  | .reopen => match scan ms.2 c.backups with
+    | .ok l => (l, ms.2)
+    | .error _ => ms          -- the constructor raises; the old manager stays in use
+
+def brun (c : Cfg) (h : List BOp) (ms : Listing × St) : Listing × St := h.foldl (bstep c) ms
 
 end HedVerif.Backup
